@@ -484,6 +484,11 @@ def check_signer(ctx, S, M, rng, w):
             L = [C(b'loc'), C(gen.rand_bytes(rng, 3))]
             args['key_locator'] = L
             exp_loc = T(L)
+        if rng.random() < 0.2:
+            # the keyless-signer flags passed explicitly with their documented default (forwarded from a variable that is False)
+            for flag in rng.sample(['no_signature', 'digest_sha256'], rng.choice([1, 2])):
+                args[flag] = False
+            ctx.event('signing-flags-passed-as-False')
         if exp_loc is None:
             idn = M.find_key(exp_key)
             exp_loc = M.ids[idn]['keys'][exp_key]['default_cert']
@@ -554,7 +559,7 @@ def judge_signer(ctx, S, M, args, exp_key, exp_loc, w, rng):
         ctx.report('signer-cache-key' if others and 'key_locator' in args else 'signer-wrong-private-key',
                    f'signature does not verify under the selected key' + (' but verifies under another key of the store' if others else ''),
                    dict(w, selected=rc.name_to_uri(list(exp_key), canonical=True), verifies_under=[rc.name_to_uri(list(o), canonical=True) for o in others],
-                        args={k: (rc.name_to_uri(list(T(v.name)), canonical=True) if hasattr(v, 'name') else rc.name_to_uri(list(v), canonical=True)) for k, v in args.items()},
+                        args={k: (v if isinstance(v, bool) else rc.name_to_uri(list(T(v.name)), canonical=True) if hasattr(v, 'name') else rc.name_to_uri(list(v), canonical=True)) for k, v in args.items()},
                         key_locator_in_packet=None if r['sig_info'] is None or r['sig_info']['key_name'] is None else rc.name_to_uri(r['sig_info']['key_name'], canonical=True)))
     kl = r['sig_info']['key_name'] if r['sig_info'] else None
     if kl is None or tuple(kl) != tuple(exp_loc):
@@ -625,6 +630,19 @@ def gen_op(rng, M):
     if r < 0.91:
         return ('reopen',)
     return ('signer',)
+
+
+def one_shot(rng, ctx, comps):
+    """A name as the caller may hold it: a list - or, now and then, a one-shot iterator / generator of components (a NonStrictName is
+    'a list or iterator of Components')."""
+    k_ = rng.random()
+    if k_ < 0.15:
+        ctx.event('name-given-as-a-one-shot-iterator')
+        return iter(list(comps))
+    if k_ < 0.3:
+        ctx.event('name-given-as-a-one-shot-iterator')
+        return (c for c in list(comps))
+    return list(comps)
 
 
 def apply_op(S, M, op, rng, ctx):
@@ -740,17 +758,17 @@ def apply_op(S, M, op, rng, ctx):
         if via == 'obj':
             kc[list(idn)][list(k)].del_cert(list(c))
         else:
-            kc.del_cert(list(c))
+            kc.del_cert(one_shot(rng, ctx, c))
         M.del_cert(c)
     elif kind == 'del_key':
         _, idn, k, via = op
         if via == 'obj':
             kc[list(idn)].del_key(list(k))
         else:
-            kc.del_key(list(k))
+            kc.del_key(one_shot(rng, ctx, k))
         M.del_key(k)
     elif kind == 'del_identity':
-        kc.del_identity(list(op[1]))
+        kc.del_identity(one_shot(rng, ctx, op[1]))
         M.del_identity(op[1])
     elif kind == 'reopen':
         S.close()
@@ -1242,7 +1260,7 @@ def run(ctx):
     n = ctx.n(60, 20000)
     for i in range(n):
         run_history(ctx, rng, rng.randint(5, 40), faults=(i % 3 == 2))
-    need = ['invariant-scan', 'signer-judged', 'operation-repeated', 'crash-reopen', 'op-del_key', 'op-del_identity', 'op-reopen',
+    need = ['name-given-as-a-one-shot-iterator', 'signing-flags-passed-as-False', 'invariant-scan', 'signer-judged', 'operation-repeated', 'crash-reopen', 'op-del_key', 'op-del_identity', 'op-reopen',
             'op-import_cert', 'signer-deleted-key-refused', 'new-key-with-empty-key-id', 'new-key-on-a-larger-curve', 'set-default-with-nonmember-name', 'signer-probe-around-default-change', 'signer-requested-with-several-selectors', 'scripted-defaults-history', 'several-stores-history', 'foreign-store-signer-refused']
     if ctx.shard == 0:
         need.append('fault-sweep-point')
